@@ -79,23 +79,48 @@ Theorem C18_access_roundtrip :
 Proof. exact C18_access_roundtrip_lemma. Qed.
 Print Assumptions C18_access_roundtrip.
 
-(* One request whose QUERY_STRING / body are REPLACED between reads (request[key] = value,
-   the documented way that clears dependent caches).  [run_ops st ops] = the results of the
-   reads in [ops]; [state_after st pre] = the (query string, body) the request carries after
-   the replacements in [pre].  Every read decodes what the request carries at that moment. *)
+(* One request that is read (query / forms / params), copied (FormsDict.copy), read by
+   attribute (FormsDict.__getattr__) and UPDATED through the item API in between
+   (request[key] = value for QUERY_STRING, wsgi.input + CONTENT_LENGTH, CONTENT_TYPE, other
+   keys; del request['QUERY_STRING']; optionally on a read-only environ; raw reads of
+   request.body).  [run_ops ro st ops] = the observations in order; [state_after ro st pre] =
+   (query string, body, content type) the request carries after the updates in [pre].
+   Every observation is the view of what the request carries at that moment. *)
 Theorem C18_reads_follow_updates :
-  forall (st : rstate) (pre post : list op) (a : accessor),
-    run_ops st (pre ++ ORead a :: post)
-    = run_ops st pre
-      ++ read_one (fst (state_after st pre)) (snd (state_after st pre)) a
-      :: run_ops (state_after st pre) post
-    /\ (forall ps1 ps2,
+  forall (ro : bool) (st : rstate) (pre post : list op) (o : op) (x : rout),
+    (out_of (state_after ro st pre) o = Some x ->
+     run_ops ro st (pre ++ o :: post)
+     = run_ops ro st pre ++ x :: run_ops ro (state_after ro st pre) post)
+    /\ state_after true st pre = st
+    /\ (forall ps1 ps2 a,
           (forall k v, In (k, v) (ps1 ++ ps2) -> k <> [] /\ Forall scalar k /\ Forall scalar v) ->
-          state_after st pre = (urlencode ps1, urlencode ps2) ->
-          nth_error (run_ops st (pre ++ ORead a :: post)) (length (run_ops st pre))
-          = Some (QDone (expected_read ps1 ps2 a))).
+          r_qs (state_after ro st pre) = urlencode ps1 ->
+          r_body (state_after ro st pre) = urlencode ps2 ->
+          selects_urlencoded (r_ct (state_after ro st pre)) = true ->
+          view (state_after ro st pre) a = RO (QDone (expected_read ps1 ps2 a))).
 Proof. exact C18_reads_follow_updates_lemma. Qed.
 Print Assumptions C18_reads_follow_updates.
+
+(* One application object serving several requests: response i is a function of request i. *)
+Theorem C18_requests_independent :
+  forall (reqs : list (str * list N)) i,
+    nth_error (serve_all reqs) i
+    = option_map (fun qb => [query (fst qb); forms_urlencoded (snd qb); params (fst qb) (snd qb)])
+                 (nth_error reqs i).
+Proof. exact C18_requests_independent_lemma. Qed.
+Print Assumptions C18_requests_independent.
+
+(* cache_in (the memoising property behind query / forms / params / content_length). *)
+Theorem C18_cache_in_memoises :
+  forall (ro gf : bool) (base : Z) (st : cstate),
+    (forall v st', cache_step ro gf base st CGet = (CVal v, st') ->
+                   cache_step ro gf base st' CGet = (CVal v, st'))
+    /\ (forall st', cache_step ro gf base st CGet = (CGetterErr, st') -> c_cached st' = None)
+    /\ (ro = true -> forall v, cache_step ro gf base st (CSet v) = (CReadOnly, st)
+                               /\ cache_step ro gf base st CDel = (CReadOnly, st))
+    /\ (ro = false -> forall st', cache_step ro gf base st CDel = (COk, st') -> c_cached st' = None).
+Proof. exact C18_cache_in_lemma. Qed.
+Print Assumptions C18_cache_in_memoises.
 
 (* END TO END through the body pipeline (composition with C04, C05, C13; models
    model/Stream.v, Body.v, Chunked.v, BodyLimits.v are imported, not restated).
@@ -285,14 +310,30 @@ Example C18_framing_nonvacuous :
      end.
 Proof. vm_compute. repeat split. Qed.
 
-(* query read, query string replaced, query and params read again; then the body replaced *)
+(* query read, query string replaced, query and params read again; body replaced; the
+   content type switched to JSON (another parser) and back, upper case, with a parameter *)
 Example C18_updates_nonvacuous :
-  run_ops ([97; 61; 49]%N, [120; 61; 49]%N)
-          [ORead AQuery; OSetQs [98; 61; 50]%N; ORead AQuery; ORead AParams;
-           OSetBody [121; 61; 50; 38; 98; 61; 51]%N; ORead AForms; ORead AParams]
-  = [ QDone [([97]%N, VStr [49]%N)];
-      QDone [([98]%N, VStr [50]%N)];
-      QDone [([98]%N, VStr [50]%N); ([120]%N, VStr [49]%N)];
-      QDone [([121]%N, VStr [50]%N); ([98]%N, VStr [51]%N)];
-      QDone [([98]%N, VStr [51]%N); ([121]%N, VStr [50]%N)] ].
-Proof. vm_compute. reflexivity. Qed.
+  run_ops false (mkR [97; 61; 49]%N [120; 61; 49]%N [])
+          [ORead AQuery; OSetQs [98; 61; 50]%N; ORead AQuery; OCopy AParams;
+           OSetBody [121; 61; 50; 38; 98; 61; 51]%N; OReadBody 3; ORead AForms; OAttr AParams [98]%N;
+           OSetCtype [65;112;112;108;105;99;97;116;105;111;110;47;74;83;79;78]%N; ORead AForms; ORead AQuery;
+           OSetCtype [84;69;88;84;47;80;76;65;73;78;59;32;99;104;97;114;115;101;116;61;120]%N; ODelQs; ORead AParams]
+  = [ RO (QDone [([97]%N, VStr [49]%N)]);
+      RO (QDone [([98]%N, VStr [50]%N)]);
+      RO (QDone [([98]%N, VStr [50]%N); ([120]%N, VStr [49]%N)]);
+      RO (QDone [([121]%N, VStr [50]%N); ([98]%N, VStr [51]%N)]);
+      RO (QDone [([98]%N, VStr [51]%N)]);
+      ROther;
+      RO (QDone [([98]%N, VStr [50]%N)]);
+      RO (QDone [([121]%N, VStr [50]%N); ([98]%N, VStr [51]%N)]) ]
+  /\ run_ops true (mkR [97; 61; 49]%N [] []) [ORead AQuery; OSetQs [98; 61; 50]%N; ODelQs; ORead AQuery]
+     = [RO (QDone [([97]%N, VStr [49]%N)]); RO (QDone [([97]%N, VStr [49]%N)])].
+Proof. vm_compute. split; reflexivity. Qed.
+
+(* cache_in: get, get (memo), del, get (recomputed: the getter was called a second time), set, get *)
+Example C18_cache_in_example :
+  cache_run false false 10 (mkC None 0) [CGet; CGet; CDel; CDel; CGet; CSet 7; CGet]
+  = [CVal 10; CVal 10; COk; CMissing; CVal 11; COk; CVal 7]
+  /\ cache_run true false 10 (mkC None 0) [CGet; CSet 7; CDel; CGet] = [CVal 10; CReadOnly; CReadOnly; CVal 10]
+  /\ cache_run false true 10 (mkC None 0) [CGet; CGet] = [CGetterErr; CGetterErr].
+Proof. vm_compute. repeat split. Qed.
